@@ -1,6 +1,6 @@
 // replay for property C03, harness c03_header_len_gate (/verif/harness/sciparse/c03_codec.rs)
 // failed checks reported by CBMC:
-//   "representable header rejected" @ ../harness/sciparse/c03_codec.rs:493:13 in function proto::packet::model::verif_c03::header_len_gate
+//   "header that does not fit the 8-bit header length field accepted" @ ../harness/sciparse/c03_codec.rs:526:13 in function proto::packet::model::verif_c03::header_len_gate
 //! verif-attach: file=crates/libs/sciparse/src/proto/packet/model.rs crate=sciparse mod=verif_c03
 //!
 //! C03 — wire codec: announced size = written size, truthful length fields, models that do not
@@ -115,17 +115,19 @@ fn path_len(kind: u8) -> usize {
 
 /// Payload *length* symbolic up to 2^17 (contents irrelevant), header shapes symbolic over the
 /// catalogue: accepted => every length fits its wire field; announced size = sum of the parts.
-fn size_gate(std_path: bool) {
+/// `mode` 0: destination address kind symbolic (7 kinds), source IPv4, path empty/one-hop;
+/// 1: source kind symbolic, destination IPv4; 2: IPv4/IPv4, standard path (model code with
+/// TinyVec is costly for CBMC: its own instantiation)
+fn size_gate(mode: u8) {
     let n: usize = kani::any();
     kani::assume(n <= 1 << 17);
     let dk: u8 = kani::any();
     let sk: u8 = kani::any();
     let pk: u8 = kani::any();
-    // model code with TinyVec (standard path) is costly for CBMC: its own instantiation, IPv4 only
-    if std_path {
-        kani::assume(dk == 0 && sk == 0 && pk == 2);
-    } else {
-        kani::assume(dk < 7 && sk < 7 && pk < 2);
+    match mode {
+        0 => kani::assume(dk < 7 && sk == 0 && pk < 2),
+        1 => kani::assume(dk == 0 && sk < 7 && pk < 2),
+        _ => kani::assume(dk == 0 && sk == 0 && pk == 2),
     }
     let header = any_header_with(dk, sk, pk, ProtocolNumber::Other(kani::any()), false);
     let payload: Vec<u8> = vec![0u8; n];
@@ -156,18 +158,25 @@ fn size_gate(std_path: bool) {
     std::mem::forget(pkt);
 }
 
-// verif: prop=C03 tier=quick cap=900 bound="raw packets: payload length 0..2^17, all 7x7 address kinds (v4, v6, service, unknown 4/8/12/16 B with any type id), path kinds empty/one-hop, all field values" fns="ScionPacket::<Vec<u8>>::{wire_valid,required_size},ScionPacketHeader::{wire_valid,required_size},AddressHeader,DpPath,WireHostAddr" stubs="none"
+// verif: prop=C03 tier=quick cap=1200 mem=16 bound="raw packets: payload length 0..2^17, destination address of all 7 kinds (v4, v6, service, unknown 4/8/12/16 B with any type id), source IPv4, path kinds empty/one-hop, all field values" fns="ScionPacket::<Vec<u8>>::{wire_valid,required_size},ScionPacketHeader::{wire_valid,required_size},AddressHeader,DpPath,WireHostAddr" stubs="none"
 #[kani::proof]
 #[kani::unwind(20)]
-fn c03_size_gate_raw() {
-    size_gate(false)
+fn c03_size_gate_raw_dst() {
+    size_gate(0)
 }
 
-// verif: prop=C03 tier=quick cap=1200 bound="raw packets: payload length 0..2^17, IPv4 addresses, standard path 1x2 hop fields with any pointer values" fns="ScionPacket::<Vec<u8>>::wire_valid,StandardPath::{wire_valid,required_size}" stubs="none"
+// verif: prop=C03 tier=quick cap=1200 mem=16 bound="raw packets: payload length 0..2^17, source address of all 7 kinds, destination IPv4, path kinds empty/one-hop" fns="as c03_size_gate_raw_dst" stubs="none"
+#[kani::proof]
+#[kani::unwind(20)]
+fn c03_size_gate_raw_src() {
+    size_gate(1)
+}
+
+// verif: prop=C03 tier=thorough cap=3000 mem=24 bound="raw packets: payload length 0..2^17, IPv4 addresses, standard path 1x2 hop fields with any pointer values" fns="ScionPacket::<Vec<u8>>::wire_valid,StandardPath::{wire_valid,required_size}" stubs="none"
 #[kani::proof]
 #[kani::unwind(20)]
 fn c03_size_gate_std() {
-    size_gate(true)
+    size_gate(2)
 }
 
 /// Same gate for UDP packets: the UDP length field is 16 bits as well.
@@ -481,7 +490,14 @@ fn udp_checksum(dk: u8, sk: u8, paylen: usize) {
     std::mem::forget(bytes);
 }
 
-// verif: prop=C03 tier=quick cap=900 bound="UDP packet v4/v4, empty path, payload 5 B (odd), all ports/addresses/bytes" fns="UdpDatagram::encode_unchecked,ChecksumDigest::with_pseudoheader" stubs="none"
+// verif: prop=C03 tier=quick cap=1200 bound="UDP packet v4/v4, empty path, payload 1 B (odd length), all ports/addresses/bytes" fns="UdpDatagram::encode_unchecked,ChecksumDigest::{with_pseudoheader,add_slice,checksum}" stubs="none"
+#[kani::proof]
+#[kani::unwind(24)]
+fn c03_udp_checksum_v4_p1() {
+    udp_checksum(0, 0, 1)
+}
+
+// verif: prop=C03 tier=thorough cap=3000 bound="UDP packet v4/v4, empty path, payload 5 B (odd), all ports/addresses/bytes" fns="UdpDatagram::encode_unchecked,ChecksumDigest::with_pseudoheader" stubs="none"
 #[kani::proof]
 #[kani::unwind(24)]
 fn c03_udp_checksum_v4_p5() {
@@ -536,48 +552,39 @@ mod verif_playback {
     use super::*;
 /// Test generated for harness `proto::packet::model::verif_c03::c03_header_len_gate` 
 ///
-/// Check for `assertion`: ""representable header rejected""
+/// Check for `assertion`: ""header that does not fit the 8-bit header length field accepted""
 
 #[test]
-fn kani_concrete_playback_c03_header_len_gate_14166812513402928215() {
-    let concrete_vals: Vec<Vec<u8>> = vec![
-        // 0ul
-        vec![0, 0, 0, 0, 0, 0, 0, 0],
-        // 255
-        vec![255],
-        // 255
-        vec![255],
-        // 4294967295
-        vec![255, 255, 255, 255],
-        // 18446744073709551615ul
-        vec![255, 255, 255, 255, 255, 255, 255, 255],
-        // 18446744073709551615ul
-        vec![255, 255, 255, 255, 255, 255, 255, 255],
-    ];
-    let mut concrete_vals = concrete_vals;
-    concrete_vals.extend(std::iter::repeat(vec![0u8]).take(8192));
-    kani::concrete_playback_run(concrete_vals, c03_header_len_gate);
-}
-
-/// Test generated for harness `proto::packet::model::verif_c03::c03_header_len_gate` 
-///
-/// Check for `cover`: "first unrepresentable header rejected"
-
-#[test]
-fn kani_concrete_playback_c03_header_len_gate_12332494813722890973() {
+fn kani_concrete_playback_c03_header_len_gate_3791837629787535683() {
     let concrete_vals: Vec<Vec<u8>> = vec![
         // 988ul
         vec![220, 3, 0, 0, 0, 0, 0, 0],
-        // 255
-        vec![255],
-        // 255
-        vec![255],
-        // 4294967295
-        vec![255, 255, 255, 255],
-        // 18446744073709551615ul
-        vec![255, 255, 255, 255, 255, 255, 255, 255],
-        // 18446744073709551615ul
-        vec![255, 255, 255, 255, 255, 255, 255, 255],
+        // 0
+        vec![0],
+        // 0
+        vec![0],
+        // 4293918720
+        vec![0, 0, 240, 255],
+        // 0ul
+        vec![0, 0, 0, 0, 0, 0, 0, 0],
+        // 0ul
+        vec![0, 0, 0, 0, 0, 0, 0, 0],
+        // 0
+        vec![0],
+        // 0
+        vec![0],
+        // 0
+        vec![0],
+        // 0
+        vec![0],
+        // 0
+        vec![0],
+        // 0
+        vec![0],
+        // 0
+        vec![0],
+        // 0
+        vec![0],
     ];
     let mut concrete_vals = concrete_vals;
     concrete_vals.extend(std::iter::repeat(vec![0u8]).take(8192));
@@ -589,20 +596,36 @@ fn kani_concrete_playback_c03_header_len_gate_12332494813722890973() {
 /// Check for `cover`: "largest representable header accepted"
 
 #[test]
-fn kani_concrete_playback_c03_header_len_gate_1892931282003129710() {
+fn kani_concrete_playback_c03_header_len_gate_16431959221223223764() {
     let concrete_vals: Vec<Vec<u8>> = vec![
         // 984ul
         vec![216, 3, 0, 0, 0, 0, 0, 0],
-        // 255
-        vec![255],
-        // 255
-        vec![255],
-        // 1048575
-        vec![255, 255, 15, 0],
-        // 18446744073709551615ul
-        vec![255, 255, 255, 255, 255, 255, 255, 255],
-        // 18446744073709551615ul
-        vec![255, 255, 255, 255, 255, 255, 255, 255],
+        // 0
+        vec![0],
+        // 0
+        vec![0],
+        // 4293918720
+        vec![0, 0, 240, 255],
+        // 0ul
+        vec![0, 0, 0, 0, 0, 0, 0, 0],
+        // 0ul
+        vec![0, 0, 0, 0, 0, 0, 0, 0],
+        // 0
+        vec![0],
+        // 0
+        vec![0],
+        // 0
+        vec![0],
+        // 0
+        vec![0],
+        // 0
+        vec![0],
+        // 0
+        vec![0],
+        // 0
+        vec![0],
+        // 0
+        vec![0],
     ];
     let mut concrete_vals = concrete_vals;
     concrete_vals.extend(std::iter::repeat(vec![0u8]).take(8192));
@@ -610,8 +633,7 @@ fn kani_concrete_playback_c03_header_len_gate_1892931282003129710() {
 }
 }
 
-// native replay (sliced trace; cargo kani playback, dev profile, real code):
-//   kani_concrete_playback_c03_header_len_gate_14166812513402928215: did not reproduce (representable header rejected)
-//   kani_concrete_playback_c03_header_len_gate_12332494813722890973: did not reproduce (cover:first unrepresentable header rejected)
-//   kani_concrete_playback_c03_header_len_gate_1892931282003129710: did not reproduce (cover:largest representable header accepted)
+// native replay (full trace; cargo kani playback, dev profile, real code):
+//   kani_concrete_playback_c03_header_len_gate_3791837629787535683: reproduced (header that does not fit the 8-bit header length field accepted)
+//   kani_concrete_playback_c03_header_len_gate_16431959221223223764: did not reproduce (cover:largest representable header accepted)
 // re-run: bin/check C03 --replay /verif/replays/C03/c03_header_len_gate.rs
